@@ -102,6 +102,26 @@ structure Inv (cfg : Cfg) (s : State) : Prop where
 theorem inv_init (cfg : Cfg) : Inv cfg init := by
   refine ⟨?_, ?_, ⟨?_, ?_, ?_⟩, ?_, ?_, ?_⟩ <;> simp [init, inCS, usesLock, PCok]
 
+/-- Any state in which an attempt starts: nothing written or held yet, every thread at its
+first instruction; `_state` may or may not already hold a lock object. -/
+structure Fresh (s : State) : Prop where
+  uploadId : s.uploadId = 0
+  creates : s.creates = 0
+  calls : s.calls = []
+  locks : ∀ l, s.locks l = none
+  pc : ∀ t, s.pc t = .start
+
+theorem inv_fresh (cfg : Cfg) (s : State) (h : Fresh s) : Inv cfg s := by
+  refine ⟨?_, ?_, ⟨?_, ?_, ?_⟩, ?_, ?_, ?_⟩
+  · simp [h.uploadId, h.creates]
+  · intro _ _; exact h.creates
+  · intro t; simp [h.pc t, usesLock]
+  · intro t; simp [h.pc t, inCS]
+  · intro l t hl; rw [h.locks l] at hl; exact absurd hl (by simp)
+  · intro t; rw [h.pc t]; trivial
+  · intro c hc; rw [h.calls] at hc; exact absurd hc (by simp)
+  · simp [h.calls, h.creates]
+
 /-- at most one thread is inside the block -/
 theorem LockInv.mutex {s : State} (hL : LockInv s) {t t' : Nat}
     (h : inCS (s.pc t) = true) (h' : inCS (s.pc t') = true) : t = t' := by
